@@ -70,12 +70,13 @@ def term(c):
 def run(ctx):
     rp = recvlib.replay_case(ctx)
     n = 12 if ctx.thorough() else 2
-    proof_ok, detail = (True, {}) if rp else recvlib.prove(ctx)
+    proof_ok, detail = (True, {}) if rp else recvlib.prove(ctx, gens=["recvlocks"])
     obs = recvlib.harness(ctx, ["-n", n, "c13"], timeout=900)
     if obs is None:
         return
     cases = [o for o in obs if "frames" in o]
-    extra = {o["name"]: o for o in obs if "frames" not in o}
+    prog = [o for o in obs if o.get("name") == "progress"]
+    extra = {o["name"]: o for o in obs if "frames" not in o and o.get("name") != "progress"}
     if rp is not None:
         cases = [c for c in cases if c["name"] == rp.get("case", {}).get("name")] or cases
         ctx.level = "other"
@@ -86,6 +87,13 @@ def run(ctx):
             if f["k"] == "panic":
                 fails.append(("panic-" + ("opn" if f["b"].startswith("4f504e") else "msg"), "readChunk panicked: " + f.get("err", ""), dict(c, frames=[f])))
                 break
+    for p_ in prog:
+        if not p_["sentinel"]:
+            last = (p_["outs"] or [{}])[-1]
+            fails.append(("receive-does-not-return" if last.get("k") == "stuck" else "progress",
+                          "%s channel: after %d returns of Receive the next call %s; the sentinel message behind the stream was never delivered" % (
+                              p_["kind"], len(p_["outs"] or []) - 1, "did not return (waits on something that is not the network)" if last.get("k") == "stuck" else "ended with " + str(last.get("k"))), {"case": p_}))
+            break
     ids, wedge = extra.get("ids"), extra.get("wedge")
     if ids and ids["ids"] >= ids["sent"] // 2:
         fails.append(("chunk-table-request-ids-unbounded",
@@ -120,7 +128,7 @@ def run(ctx):
         "rule": "client and server SecureChannels x mode None/Sign/SignAndEncrypt x opening instance nil / without algorithm / with toy algorithm x 0-2 stored instances (toy algorithms, signature lengths 20/32/300) x ReceiveBufSize 12..65535, %d channels per combination, 14 frames each: MSG/OPN/CLO chunks valid for the state, wrong channel ids, OPN under policy None / real policies with a valid, garbage or missing certificate / unknown URIs, hostile length fields, truncations, bit flips, garbage; VerifChannel.ReadChunk on each frame, result (chunk fields / error class / panic) compared with Model.RecvFrame.read_frame threaded through the same frames inside Coq; plus a flood of intermediate chunks for 2000 fresh request ids and the unsolicited-OpenSecureChannelResponse scenario on a running dispatcher; distinct = distinct frame byte strings" % n,
         "samples": [small, ids, perid, wedge],
         "outcome_classes": kinds,
-        "channels": len(cases),
+        "channels": len(cases), "progress_streams": len(prog), "progress_streams_completed": sum(1 for p_ in prog if p_["sentinel"]),
         "traces_validated_against_impl": len(cases),
         "model_impl_mismatches": len(idx),
     })
